@@ -5,3 +5,9 @@ def fill(claim, NA):
         "Trusted: CrossHair 0.0.110 + z3, the symbolic int.__format__ model in vlib/chfmt.py (self-tested each run), CPython's timedelta normalisation as modelled by CrossHair. bs4/lxml serialisation of attribute values is outside (contract).",
         "CrossHair symbolic execution + z3; exact-LIA encoding of float kernels",
     )
+    claim(
+        "C01",
+        "Bounded symbolic check of the real readers: for every stamp of each lexical shape (all digit values; 1-4 hour digits, 0-8 fraction digits, WebVTT short form, symbolic time shift) the public SRT/WebVTT read() and the TTML/SAMI time kernels return exactly the denoted microsecond, one caption per non-empty cue in order; float kernels (MicroDVD frames at default and declared rates, TTML offset times and frame fields) are decided exactly by an IEEE-754-in-LIA encoding regenerated from the function ASTs.",
+        "Trusted: CrossHair+z3, the regex-matcher repair (vlib/chre.py, self-tested against CPython re), AST->LIA translator (validated on concrete inputs every run). One stamp symbolic per contract; bs4/lxml tree building and float(str) parsing are contracts. Bounds: digit counts listed per obligation; MicroDVD frames <= 9e7; TTML counts < 1e6 (1e9 thorough).",
+        "CrossHair symbolic execution + z3; AST->QF_LIA exact binary64 encoding (z3)",
+    )
